@@ -14,7 +14,7 @@ pub struct SynOpts {
 
 const VAR_POOL: [&str; 6] = ["x", "y", "zed", "v_1", "a.b", "q-r"];
 const LIT_POOL: [&str; 14] = ["a", "b7", "foo", "-o", ".", "/", "=", "\u{e9}", "\u{20ac}t", " ", "x y", "#", "|", ":"];
-const PATH_LIT: [&str; 8] = ["a", "b", "src", "d/", "\u{e9}", "n.1", "_", "-"];
+const PATH_LIT: [&str; 10] = ["a", "b", "src", "d/", "\u{e9}", "n.1", "_", "-", "/sub", "e/"];
 
 pub struct Gen<'t, 'a> {
     pub t: &'t mut Tape<'a>,
@@ -26,6 +26,10 @@ pub struct Gen<'t, 'a> {
 
 impl<'t, 'a> Gen<'t, 'a> {
     fn var_name(&mut self) -> String {
+        if self.t.chance(3) {
+            // user variables that happen to be called like the implicit ones: they never shadow $in/$out in a rule
+            return ["in", "out"][self.t.below(2)].to_string();
+        }
         let n = if self.o.vars_heavy { 4 } else { VAR_POOL.len() };
         VAR_POOL[self.t.below(n)].to_string()
     }
@@ -60,6 +64,10 @@ impl<'t, 'a> Gen<'t, 'a> {
         }
         if self.t.chance(30) {
             v.push(Piece::Lit(PATH_LIT[self.t.below(PATH_LIT.len())].to_string()));
+            if self.t.chance(25) {
+                // a second piece: parts may meet separator to separator (`d/` + `/sub`)
+                v.push(Piece::Lit(PATH_LIT[self.t.below(PATH_LIT.len())].to_string()));
+            }
         }
         if self.t.chance(self.o.special_chars_pct) {
             self.features.push("escaped-path");
